@@ -493,6 +493,15 @@ class RestAPI(object):
                     )
                     return aws_error("StateMachineDoesNotExist"), 400
 
+                """
+                Apply the updates to a copy, which is written back to the store
+                only when the whole request has been validated, so that a
+                request that is answered with an error (e.g. a valid roleArn
+                supplied together with an invalid definition) leaves the
+                stored State Machine exactly as it was.
+                """
+                state_machine = dict(state_machine)
+
                 role_arn = params.get("roleArn")
                 if role_arn:
                     if not valid_role_arn(role_arn):
